@@ -95,7 +95,8 @@ func c01Frames(stack []byte) string {
 
 func (r *c01Reader) probes(e *yang.Entry) []string {
 	ps := []string{".", "..", "../..", "/", "//", "", "../../../../../..", "/bogus-pfx:x", "/:x", ":", "x:y:z", "a//b",
-		"input", "output", "../input/x", "./.", "/" + e.Name, "../" + e.Name, e.Name}
+		"input", "output", "../input/x", "./.", "/" + e.Name, "../" + e.Name, e.Name, "../../..", "../../../x", "/../..", "/..", "../..//..",
+		"/" + e.Name + "/../../.."}
 	pfx := ""
 	if e.Prefix != nil {
 		pfx = e.Prefix.Name
@@ -136,11 +137,53 @@ func (r *c01Reader) readEntry(e *yang.Entry) {
 	r.try("Is*", func() {
 		_ = e.IsDir() || e.IsLeaf() || e.IsLeafList() || e.IsList() || e.IsContainer() || e.IsChoice() || e.IsCase()
 	})
+	if e.Type != nil {
+		r.try("Type", func() { r.readType(e.Type, 0) })
+	}
 	if strings.Contains(r.opts, "f") {
 		for _, p := range r.probes(e) {
 			p := p
 			r.try("Find("+strconv.Quote(p)+")", func() { _ = e.Find(p) })
 		}
+	}
+}
+
+// readType prints what a reader of the resolved type looks at: restrictions, enum and bit tables, union members.
+func (r *c01Reader) readType(t *yang.YangType, depth int) {
+	if t == nil || depth > 8 {
+		return
+	}
+	_ = t.Range.String()
+	_ = t.Length.String()
+	for _, x := range t.Range {
+		_ = x.String()
+		_ = x.Min.String() + x.Max.String()
+		_ = x.Valid()
+	}
+	for _, x := range t.Length {
+		_ = x.String()
+	}
+	_ = t.Range.Equal(t.Length)
+	for _, en := range []*yang.EnumType{t.Enum, t.Bit} {
+		if en != nil {
+			for _, n := range en.Names() {
+				_ = en.Value(n)
+				_ = en.IsDefined(n)
+			}
+			for _, v := range en.Values() {
+				_ = en.Name(v)
+			}
+			_ = en.NameMap()
+			_ = en.ValueMap()
+		}
+	}
+	_ = fmt.Sprintf("%v %v %v %v %v", t.Name, t.Kind, t.Default, t.FractionDigits, t.Pattern)
+	_ = t.Equal(t.Root)
+	if t.IdentityBase != nil {
+		_ = t.IdentityBase.PrefixedName()
+	}
+	for _, u := range t.Type {
+		r.readType(u, depth+1)
 	}
 }
 
